@@ -69,7 +69,7 @@ def tlc(module, cfg, workers=None, timeout=900, simulate=None, depth=None, cover
 
 
 def _metabase():
-    base = "/dev/shm" if os.access("/dev/shm", os.W_OK) else SCRATCH
+    base = os.environ.get("VERIF_FAST_TMP", SCRATCH)
     d = os.path.join(base, "verif-tlcmeta")
     os.makedirs(d, exist_ok=True)
     return d
